@@ -181,7 +181,7 @@ func runC12(w *fw.Worker) {
 		pk := flagPkgs[i%2]
 		custom := r.Chance(30)
 		o := gen.GenOpts{MaxDepth: 3 - r.Intn(2), MaxFields: r.Range(2, 6), StructPct: r.Range(10, 45), TagPct: r.Range(0, 40), SkipPct: r.Range(0, 15),
-			Leaves: flagLeaves(), InitialismPct: 20, SingleLetterPct: 3}
+			Leaves: flagLeaves(), InitialismPct: 20, SingleLetterPct: 3, UnicodePct: 8}
 		spec := gen.RandomSpec(r, o)
 		leaves := spec.LeafRefs()
 		for k, lr := range leaves {
